@@ -174,9 +174,15 @@ impl PollCase {
         } else {
             "https://example.com/token?x=1".to_string()
         };
-        let client = BasicClient::new(ClientId::new("cid".into()))
-            .set_client_secret(ClientSecret::new("sec".into()))
-            .set_token_uri(TokenUrl::new(url).unwrap());
+        // glue bits 6-7: how the client authenticates (every poll is the same request under each of them): Basic header with a
+        // secret, request-body credentials, a public client without a secret, a secret that needs escaping
+        let client = BasicClient::new(ClientId::new("cid".into())).set_token_uri(TokenUrl::new(url).unwrap());
+        let client = match (self.glue >> 6) & 3 {
+            0 => client.set_client_secret(ClientSecret::new("sec".into())),
+            1 => client.set_client_secret(ClientSecret::new("sec".into())).set_auth_type(AuthType::RequestBody),
+            2 => client,
+            _ => client.set_client_secret(ClientSecret::new("s e:c/+&=%é".into())),
+        };
         let mut doc = serde_json::json!({"device_code": "DC", "user_code": "UC", "verification_uri": "https://v.example/",
             "expires_in": self.expires_in});
         match self.interval {
@@ -481,7 +487,7 @@ impl CaseInput for PollCase {
             pend_http: r.below(4) as u32,
             pend_sleep: r.below(4) as u32,
             bad_uri: r.chance(1, 25),
-            glue: r.below(64) as u8,
+            glue: r.below(256) as u8,
             real_latency_ms: 0,
         }
     }
@@ -528,7 +534,7 @@ impl CaseInput for PollCase {
                         pend_http: (ei % 3) as u32,
                         pend_sleep: (ei % 2) as u32,
                         bad_uri: false,
-                        glue: (ei % 64) as u8,
+                        glue: (ei % 256) as u8,
                         real_latency_ms: 0,
                     });
                 }
